@@ -74,6 +74,26 @@ theorem mayWriteIn_sound (S : List Summary) (p : List Stmt) (A : Pts)
     have := hnil _ hmem
     simp [paramOf] at this
 
+/-- … and the same for the records the caller handed in (objects `recd i`, `recTop i`) -/
+theorem mayWriteIn_sound_records (S : List Summary) (p : List Stmt) (A : Pts)
+    (hclosed : ∀ s, s ∈ p → Le (step S s A) A) (h : mayWriteIn S p A = []) :
+    ∀ (tr : List Nat) (ver : Obj → Nat) (i : Nat),
+      (execTrace S p tr (entry ver)).ver (.recd i) = ver (.recd i) ∧
+      (execTrace S p tr (entry ver)).ver (.recTop i) = ver (.recTop i) := by
+  intro tr ver i
+  have hb := (postfix_bounds_every_trace S p A hclosed tr ver).2
+  have hnil := dedup_eq_nil h
+  rw [List.filterMap_eq_nil_iff] at hnil
+  constructor
+  · apply hb
+    intro hmem
+    have := hnil _ hmem
+    simp [paramOf] at this
+  · apply hb
+    intro hmem
+    have := hnil _ hmem
+    simp [paramOf] at this
+
 /-- the same with the table computed by the analysis itself (`fuel` passes, then checked closed) -/
 theorem mayWrite_sound (S : List Summary) (p : List Stmt) (fuel : Nat)
     (hok : analysisOK S p fuel = true) (h : mayWrite S p fuel = []) :
@@ -107,6 +127,64 @@ theorem mayWriteGlobalIn_sound (S : List Summary) (p : List Stmt) (A : Pts)
 
 example : mayWriteGlobal [] [.global 0 3, .elem 1 0] 2 = [] ∧ mayWriteGlobal [] [.gwrite 0] 1 = [0] := by decide
 
+/-! ## results share no mutable state with the arguments -/
+
+theorem cellObjs_mono {c d : Cell} (h : CellLe c d) : cellObjs c ⊆ cellObjs d :=
+  append_mono h.1 (append_mono h.2.1 h.2.2)
+
+/-- **Soundness of the sharing analysis.** For any table closed under the program: if `mayShareIn A ret = []`, then in every
+execution (any trace, any initial versions) nothing the result name may denote, hold or reach is a parameter object or a
+container / annotation below a parameter. -/
+theorem mayShareIn_sound (S : List Summary) (p : List Stmt) (A : Pts) (ret : Nat)
+    (hclosed : ∀ s, s ∈ p → Le (step S s A) A) (h : mayShareIn A ret = []) :
+    ∀ (tr : List Nat) (ver : Obj → Nat) (o : Obj),
+      o ∈ cellObjs ((execTrace S p tr (entry ver)).pts.get ret) → shareParamOf o = none := by
+  intro tr ver o ho
+  have hle := (postfix_bounds_every_trace S p A hclosed tr ver).1
+  have hnil := dedup_eq_nil h
+  rw [List.filterMap_eq_nil_iff] at hnil
+  exact hnil o (cellObjs_mono (hle ret) ho)
+
+/-- the same for process-wide objects: the result is not, and does not contain, a module-level table or database -/
+theorem mayShareGlobalIn_sound (S : List Summary) (p : List Stmt) (A : Pts) (ret : Nat)
+    (hclosed : ∀ s, s ∈ p → Le (step S s A) A) (h : mayShareGlobalIn A ret = []) :
+    ∀ (tr : List Nat) (ver : Obj → Nat) (o : Obj),
+      o ∈ cellObjs ((execTrace S p tr (entry ver)).pts.get ret) → globOf o = none := by
+  intro tr ver o ho
+  have hle := (postfix_bounds_every_trace S p A hclosed tr ver).1
+  have hnil := dedup_eq_nil h
+  rw [List.filterMap_eq_nil_iff] at hnil
+  exact hnil o (cellObjs_mono (hle ret) ho)
+
+/-- together: the returned object and everything below it is allocated by the call itself, or is a record the caller handed
+in (Mod, Interval, Fragment …: the reading decision) -/
+theorem result_fresh (S : List Summary) (p : List Stmt) (A : Pts) (ret : Nat)
+    (hclosed : ∀ s, s ∈ p → Le (step S s A) A) (h1 : mayShareIn A ret = []) (h2 : mayShareGlobalIn A ret = [])
+    (tr : List Nat) (ver : Obj → Nat) (o : Obj)
+    (ho : o ∈ cellObjs ((execTrace S p tr (entry ver)).pts.get ret)) :
+    (∃ s, o = .loc s) ∨ (∃ i, o = .recd i) ∨ (∃ i, o = .recTop i) := by
+  have a := mayShareIn_sound S p A ret hclosed h1 tr ver o ho
+  have b := mayShareGlobalIn_sound S p A ret hclosed h2 tr ver o ho
+  cases o with
+  | root i => simp [shareParamOf] at a
+  | inner i => simp [shareParamOf] at a
+  | recd i => exact Or.inr (Or.inl ⟨i, rfl⟩)
+  | recTop i => exact Or.inr (Or.inr ⟨i, rfl⟩)
+  | glob g => simp [globOf] at b
+  | loc s => exact Or.inl ⟨s, rfl⟩
+
+/-- the sharing analysis sees the patterns it is meant to see: returning the argument, returning a shallow copy whose
+elements are the caller's containers, storing a caller's list into a new object (the `slice` mutation), returning a module
+table; and it accepts a deep copy and a new list of the caller's records -/
+theorem mayShare_flags_and_accepts :
+    mayShareIn (analyse [] [.param 0 0, .alias 1 [0]] 2) 1 = [0] ∧
+    mayShareIn (analyse [] [.param 0 0, .shallow 1 [0]] 2) 1 = [0] ∧
+    mayShareIn (analyse [] [.param 0 0, .fresh 1, .elem 2 0, .store 1 2] 3) 1 = [0] ∧
+    mayShareGlobalIn (analyse [] [.global 0 5, .alias 1 [0]] 2) 1 = [5] ∧
+    mayShareIn (analyse [] [.param 0 0, .fresh 1] 2) 1 = [] ∧
+    mayShareIn (analyse [] [.param 0 0, .asRec 2 0 1, .shallow 1 [2]] 3) 1 = [] := by
+  decide
+
 /-- a call that the analysis finds free of parameter and global writes -/
 def PureCall (S : List Summary) (c : Call) : Prop :=
   ∃ A, closedB S c.prog A = true ∧ mayWriteIn S c.prog A = [] ∧ mayWriteGlobalIn S c.prog A = []
@@ -120,6 +198,8 @@ theorem pure_call_frame (S : List Summary) (c : Call) (hc : PureCall S c) (ver :
   cases o with
   | root i => exact (mayWriteIn_sound S c.prog A (closedB_sound hok) hw c.trace ver i).1
   | inner i => exact (mayWriteIn_sound S c.prog A (closedB_sound hok) hw c.trace ver i).2
+  | recd i => exact (mayWriteIn_sound_records S c.prog A (closedB_sound hok) hw c.trace ver i).1
+  | recTop i => exact (mayWriteIn_sound_records S c.prog A (closedB_sound hok) hw c.trace ver i).2
   | glob g => exact mayWriteGlobalIn_sound S c.prog A (closedB_sound hok) hg c.trace ver g
   | loc s => simp [isCaller] at ho
 
@@ -192,6 +272,8 @@ theorem nested_pure_call_writes_nothing (S : List Summary) (fns : List FnInfo)
   cases o with
   | root i => simp [paramOf] at p1
   | inner i => simp [paramOf] at p1
+  | recd i => simp [paramOf] at p1
+  | recTop i => simp [paramOf] at p1
   | glob g => simp [globOf] at p2
   | loc s => rfl
 
@@ -212,6 +294,11 @@ def fnOK (f : Nat) (k : FnInfo → Bool) : Bool :=
   match Gen.fns[f]? with
   | some i => k i
   | none => false
+
+/-- the explicit list `Effects.declaredSharing` (Model/EffectsApi.lean), as code points -/
+def declaredSharingCodes : List (List Nat) := declaredSharing.map (fun s => s.toList.map Char.toNat)
+
+def isDeclaredSharing (e : Gen.ApiEntry) : Bool := declaredSharingCodes.contains e.code
 
 /-- the explicit list `Effects.declaredOutside` (Model/EffectsApi.lean), as code points -/
 def declaredOutsideCodes : List (List Nat) := declaredOutside.map (fun s => s.toList.map Char.toNat)
@@ -255,6 +342,36 @@ theorem generated_random_only_rng :
         (mayWriteGlobalIn Gen.summaries i.prog i.table).all (fun g => g == 0))) = true := by
   decide +kernel
 
+/-- **Results are fresh.** Every API member that is not an editor, not declared outside and not in the explicit
+`declaredSharing` list returns an object that is not, and does not contain, a parameter object, a container or annotation
+below a parameter, or a process-wide object (records handed in by the caller excepted, see `shareParamOf`). -/
+theorem generated_results_fresh :
+    Gen.api.all (fun e => e.editor || isOutside e || isDeclaredSharing e ||
+      fnOK e.fid (fun i => (mayShareIn i.table i.ret == []) && (mayShareGlobalIn i.table i.ret == []))) = true := by
+  decide +kernel
+
+/-- the members of `declaredSharing` are there for a reason: the analysis does flag each of them -/
+theorem declared_sharing_is_flagged :
+    Gen.api.all (fun e => !isDeclaredSharing e || fnOK e.fid (fun i => !(mayShareIn i.table i.ret == []))) = true := by
+  decide +kernel
+
+/-- **The modification databases are untouched.** No member of the API surface - editors, members declared outside and
+random ones included - may write one of the module-level EntryDb objects or hand one back; and the only process-wide
+object any of them may write at all is the module random generator (object 0: `shuffle` and the randomizers). -/
+theorem generated_db_untouched :
+    Gen.api.all (fun e => fnOK e.fid (fun i =>
+      (mayWriteGlobalIn Gen.summaries i.prog i.table).all (fun g => !Gen.dbGlobals.contains g && g == 0) &&
+      (mayShareGlobalIn i.table i.ret).all (fun g => !Gen.dbGlobals.contains g))) = true := by
+  decide +kernel
+
+/-- non-vacuity of `generated_db_untouched`: the analysis does see database writes - the explicit database editors
+(`reload_all_databases`, `reset_all_databases`) are flagged as writing EntryDb objects -/
+theorem db_editors_are_flagged :
+    (!Gen.dbEditors.isEmpty && !Gen.dbGlobals.isEmpty &&
+      Gen.dbEditors.all (fun f => fnOK f (fun i =>
+        (mayWriteGlobalIn Gen.summaries i.prog i.table).any (fun g => Gen.dbGlobals.contains g)))) = true := by
+  decide +kernel
+
 /-- property getters are read as plain field access by the translator; they are analysed too and write nothing -/
 theorem getters_pure :
     Gen.getters.all (fun f => fnOK f (fun i =>
@@ -279,6 +396,19 @@ theorem generated_query_frame (e : Gen.ApiEntry) (he : e ∈ Gen.api)
   simp only [h1, h2, h3, Bool.false_or, fnOK, hi, Bool.and_eq_true, beq_iff_eq] at hq
   have hpc : PureCall Gen.summaries ⟨i.prog, tr⟩ := ⟨i.table, generated_tables_closed e.fid i hi, hq.1, hq.2⟩
   exact pure_call_frame Gen.summaries ⟨i.prog, tr⟩ hpc ver o ho
+
+/-- **End to end, results**: for such a member, in every trace, whatever the result may denote, hold or reach is allocated
+by the call or is a record handed in by the caller. -/
+theorem generated_result_frame (e : Gen.ApiEntry) (he : e ∈ Gen.api)
+    (h1 : e.editor = false) (h2 : isOutside e = false) (h3 : isDeclaredSharing e = false)
+    (i : FnInfo) (hi : Gen.fns[e.fid]? = some i) (tr : List Nat) (ver : Obj → Nat) (o : Obj)
+    (ho : o ∈ cellObjs ((execTrace Gen.summaries i.prog tr (entry ver)).pts.get i.ret)) :
+    (∃ s, o = .loc s) ∨ (∃ j, o = .recd j) ∨ (∃ j, o = .recTop j) := by
+  have h := generated_results_fresh
+  rw [List.all_eq_true] at h
+  have hq := h e he
+  simp only [h1, h2, h3, Bool.false_or, fnOK, hi, Bool.and_eq_true, beq_iff_eq] at hq
+  exact result_fresh Gen.summaries i.prog i.table i.ret (closedB_sound (generated_tables_closed e.fid i hi)) hq.1 hq.2 tr ver o ho
 
 /-- nested execution of the regenerated bodies is bounded by their tables (instance of `nested_calls_bounded`) -/
 theorem generated_nested_calls_bounded (tr : NTrace) (p : List Stmt) (A : Pts) (hA : closedB Gen.summaries p A = true)
